@@ -655,4 +655,25 @@ theorem render_nonempty (text : Nat → String) (hs : List Hunk) (h : hs ≠ [])
     have : "--- old\n+++ new\n".length = 16 := by decide
     omega
 
+/-! ## renumbering (fix a2545ec) -/
+
+theorem renumber_ops (xs : List IOp) : ∀ oi ni, (renumber oi ni xs).map (·.op) = xs.map (·.op) := by
+  induction xs with
+  | nil => intro _ _; rfl
+  | cons x r ih => intro oi ni; simp [renumber, ih]
+
+theorem renumber_inOrder (xs : List IOp) : ∀ oi ni, InOrder oi ni (renumber oi ni xs) = true := by
+  induction xs with
+  | nil => intro _ _; rfl
+  | cons x r ih =>
+    intro oi ni
+    obtain ⟨op, a, b⟩ := x
+    cases op <;> simp [renumber, InOrder, oldLen, newLen, ih]
+
+/-- after the fix the hunks are accepted whatever index fields `similar` left behind -/
+theorem unified_fixed (n : Nat) (xs : List IOp) (old new : List Nat)
+    (hv : Valid (xs.map (·.op)) old new = true) :
+    applyU 0 0 old (hunksFixed n xs old new) = some new :=
+  unified_main n (renumber 0 0 xs) old new (renumber_inOrder xs 0 0) (by rw [renumber_ops]; exact hv)
+
 end StyluaModel.UnifiedLemmas
